@@ -260,7 +260,10 @@ func (fx *FuncCtx) memberGoal(st *State, fams []famInst, rid, addr Term, extra [
 		fresh = Lt(rid, IntLit(0))
 	}
 	if fx.discard == 0 {
-		if g := Or(fresh, fx.memberGoalLevel(st, fams, rid, addr, extra, true)); g.S == "true" || (g.S != "false" && fx.proves(st.hypTerms(), g, fx.eng.quickTimeoutMs)) {
+		// (4x the quick limit: with 1x the choice between the small and the full goal depended on
+		// whether a 0.9 s query finished within 1.5 s on the machine at hand: an alarm on the
+		// unchanged tree in a fresh-sandbox run, Dorgql call.frame#27)
+		if g := Or(fresh, fx.memberGoalLevel(st, fams, rid, addr, extra, true)); g.S == "true" || (g.S != "false" && fx.proves(st.hypTerms(), g, 4*fx.eng.quickTimeoutMs)) {
 			return g
 		}
 	}
